@@ -6,7 +6,7 @@ from .. import gen, impl, oracle, ser, stream
 
 ID = "C04"
 LEVEL = "proof"
-PROPS_MODULE = "SymmModel.Props.C04All"
+PROPS_MODULE = "SymmModel.Props.C04All2"
 THEOREMS = [
     "SymmModel.C04.permuted_compose",
     "SymmModel.C04.compose_isPerm",
@@ -39,10 +39,20 @@ THEOREMS = [
     "SymmModel.C04.gradedContract_swap",
     "SymmModel.C04.mergeOddpos_swap",
     "SymmModel.C04.assoc_sign_identity",
-    "SymmModel.C04.swap_block_order_differs"
+    "SymmModel.C04.swap_block_order_differs",
+    "SymmModel.C04.tdotF_assoc_partial",
+    "SymmModel.C04.tdotF_assoc_partial_at",
+    "SymmModel.C04.tdotF_assoc_partial_dense",
+    "SymmModel.C04.tdotF_assoc_partial_GRat",
+    "SymmModel.C04.tensordotF_refines_graded_common",
+    "SymmModel.C04.commonB_of_contractibleB",
+    "SymmModel.C04.contractibleCommonB_def",
+    "SymmModel.C04.assoc_vocabulary",
+    "SymmModel.C04.route_left_value",
+    "SymmModel.C04.pruned_not_contractible"
 ]
-LEAN_FILES = ["SymmModel.Props.C04", "SymmModel.Proofs.Oddpos", "SymmModel.Proofs.Koszul", "SymmModel.Props.C04b", "SymmModel.Props.C04All", "SymmModel.Proofs.Routes", "SymmModel.Proofs.Routes2", "SymmModel.Proofs.Routes3", "SymmModel.Proofs.Routes4"]
-PLANNED = ["S7 tdotF_assoc (blocked on generalising contractibleB to pruned tables", "sign part assoc_sign_identity and label part oddpos_assoc proved)", "S4-S6 for mode = fused"]
+LEAN_FILES = ["SymmModel.Props.C04", "SymmModel.Proofs.Oddpos", "SymmModel.Proofs.Koszul", "SymmModel.Props.C04b", "SymmModel.Props.C04All", "SymmModel.Proofs.Routes", "SymmModel.Proofs.Routes2", "SymmModel.Proofs.Routes3", "SymmModel.Proofs.Routes4", "SymmModel.Props.C04c", "SymmModel.Props.C04All2", "SymmModel.Proofs.AssocWeak", "SymmModel.Proofs.AssocGeom", "SymmModel.Proofs.AssocSum", "SymmModel.Proofs.AssocFrame", "SymmModel.Proofs.AssocLeft", "SymmModel.Proofs.AssocRight", "SymmModel.Proofs.AssocIdx", "SymmModel.Proofs.AssocMain"]
+PLANNED = ["S7 with A-C legs (triangles", "chain A-B-C proved as tdotF_assoc_partial)", "S4-S7 for mode = fused (follows from C06b fused = blockwise at tensordotA)", "labels with conjugate pairs across operands"]
 RULE = ("random networks of 2-4 fermionic tensors (chains, triangles, stars; with and without dangling legs), all "
         "symmetries, random bond orientations, every mix of even/odd charges with distinct labels, sparse, pending "
         "signs; 4 random routes per network differing in contraction order, operand order, axis listing order, "
